@@ -64,6 +64,7 @@ class Body:
         self.locals = j["locals"]
         self.argc = j["argc"]
         self._succ = [self._succs(i) for i in range(self.n)]
+        self._prune_constant_try()
         self._pred = [[] for _ in range(self.n)]
         for a, ss in enumerate(self._succ):
             for b, kind in ss:
@@ -90,6 +91,35 @@ class Body:
             for b in t.get("ts", []):
                 out.append((b, "goto"))
         return out
+
+    def _prune_constant_try(self):
+        """`Err(e)?` / `None?`: the `?` applied to a freshly built Err/None can only break. Remove the
+        infeasible Continue edge so that path rules do not follow it."""
+        assigns = collections.defaultdict(list)
+        for bb in self.bbs:
+            for s in bb["st"]:
+                if s.get("k") == "A" and not s["p"].get("pr"):
+                    assigns[s["p"]["l"]].append(s["r"])
+            t = bb["t"]
+            if t["k"] == "Call":
+                assigns[t["d"]["l"]].append({"k": "CallResult"})
+        for i, bb in enumerate(self.bbs):
+            t = bb["t"]
+            if t["k"] != "Call" or not (t.get("res") or t.get("fn") or "").endswith("core::ops::try_trait::Try>::branch"):
+                continue
+            l = op_local(t["args"][0]) if t["args"] else None
+            if l is None:
+                continue
+            rs = assigns.get(l, [])
+            # follow one level of plain moves
+            if len(rs) == 1 and rs[0].get("k") == "Use" and op_local(rs[0]["o"]) is not None:
+                rs = assigns.get(op_local(rs[0]["o"]), [])
+            if len(rs) == 1 and rs[0].get("k") == "Agg" and rs[0].get("variant") in ("Err", "None") and rs[0]["ak"] in ("Adt:core::result::Result", "Adt:core::option::Option"):
+                nxt = t.get("t")
+                while nxt is not None and self.bbs[nxt]["t"]["k"] == "Goto":
+                    nxt = self.bbs[nxt]["t"]["t"]
+                if nxt is not None and self.bbs[nxt]["t"]["k"] == "Switch":
+                    self._succ[nxt] = [(b, k) for b, k in self._succ[nxt] if k != ("case", 0)]
 
     def succ(self, i, unwind=True):
         return [(b, k) for b, k in self._succ[i] if unwind or k != "unwind"]
